@@ -40,7 +40,8 @@ class StmtMixin:
             return results
         return [Res(merged)] + [r for r in results if not (r.ok and not r.st.undecided)]
 
-    def merge_states(self, sts):
+    def merge_states(self, sts, values=None):
+        """-> merged State, or (State, merged V) when `values` (one V per state) is given"""
         # common prefix of the path conditions
         L = 0
         m = min(len(s.pc) for s in sts)
@@ -76,6 +77,8 @@ class StmtMixin:
             vals = [s.env[nm] for s in sts]
             if all(isinstance(v, V) for v in vals):
                 tys = {v.ty for v in vals}
+                if len({base_type(t) for t in tys if t is not None}) > 1:
+                    return None         # conflicting static types: keep the paths apart
                 srcs = [v.src for v in vals]
                 out.env[nm] = V(ite([v.t for v in vals]), vals[0].ty if len(tys) == 1 else None,
                                 src=srcs[0] if all(x is srcs[0] for x in srcs) else None)
@@ -102,6 +105,9 @@ class StmtMixin:
                     seen.add(k); out.writes.append(w)
         out.front = ite([s.front for s in sts])
         out.nalloc = max(s.nalloc for s in sts)
+        if values is not None:
+            tys = {v.ty for v in values}
+            return out, V(ite([v.t for v in values]), values[0].ty if len(tys) == 1 else None)
         return out
 
     def ex(self, st, s):
@@ -249,11 +255,28 @@ class StmtMixin:
                     self.bind_target(st, t, v)
             else:
                 seq = self.elems(st, val)
-                st.assume(z3.Length(seq) == len(target.elts))   # arity failure not modelled
-                for k, t in enumerate(target.elts):
-                    if isinstance(t, ast.Starred):
-                        raise Unsupported("starred unpack")
-                    self.bind_target(st, t, V(seq[k], elem_type(val.ty)))
+                stars = [k for k, t in enumerate(target.elts) if isinstance(t, ast.Starred)]
+                if not stars:
+                    st.assume(z3.Length(seq) == len(target.elts))   # arity failure not modelled
+                    for k, t in enumerate(target.elts):
+                        self.bind_target(st, t, V(seq[k], elem_type(val.ty)))
+                else:
+                    if len(stars) > 1: raise Unsupported("two starred targets")
+                    sidx = stars[0]; nafter = len(target.elts) - sidx - 1
+                    st.assume(z3.Length(seq) >= len(target.elts) - 1)
+                    for k, t in enumerate(target.elts[:sidx]):
+                        self.bind_target(st, t, V(seq[k], elem_type(val.ty)))
+                    n_ = z3.Length(seq)
+                    rest = self.subseq(st, seq, z3.IntVal(sidx), n_ - sidx - nafter)
+                    self.bind_target(st, target.elts[sidx].value, self.new_list(st, rest, "list" + (f"[{elem_type(val.ty)}]" if elem_type(val.ty) else "")))
+                    for j, t in enumerate(target.elts[sidx + 1:]):
+                        self.bind_target(st, t, V(seq[n_ - nafter + j], elem_type(val.ty)))
+        elif isinstance(target, (ast.Attribute, ast.Subscript)):
+            if isinstance(val, tuple):
+                val = self.new_list(st, self.mkseq(list(val)), "tuple")
+            rs = self.assign(st, target, val, getattr(target, "lineno", 0))
+            if len(rs) != 1 or not rs[0].ok or rs[0].st is not st:
+                raise Unsupported("attribute/subscript binding target with side effects")
         else:
             raise Unsupported("binding target")
 
